@@ -4,17 +4,25 @@ from props.mandoline_kernels import kernel_tasks, kernel_canaries
 
 ASSUMPTIONS = A01 + ["coordinates and interpolation weights are real numbers (machine arithmetic treated as mathematical); "
                      "np.isclose(a,b) is |a-b| <= 1e-8 + 1e-5|b|",
-                     "box selection, per-level reduction and the interpolation formula of reducemp_data_ortho are covered by "
-                     "the bounded run-time layer (np.empty poisoned with NaN in the harness) in this round"]
+                     "the per-level reduction (painting order: finer levels after coarser ones) of reducemp_data_ortho is covered by "
+                     "the bounded run-time layer (np.empty poisoned with NaN in the harness); box selection "
+                     "(compute_mpinput_3d) and the box worker (slice_box) are under contract",
+                     "slice_box: the number of requested fields is a skeleton parameter (1, 2, 1+None); box geometry, data, "
+                     "level, refinement factor and plane position are unbounded",
+                     "ghost enumeration (CNT, IDX) of a filtered list: definitional facts instantiated by hand (spec/filt.py)"]
 TRUSTED = T01 + ["numpy: linspace, where, isclose, repeat, reshape contracts"]
 
 
 def tasks(tier):
-    return kernel_tasks("C07", ["expand", "coords"])
+    from props.mandoline_parents import parent_tasks
+    from props.mandoline_boxes import box_tasks
+    return kernel_tasks("C07", ["expand", "coords"]) + parent_tasks("C07") + box_tasks("C07", ["slice"])
 
 
 def canaries(tier):
-    return kernel_canaries(["expand", "coords"])
+    from props.mandoline_parents import parent_canaries
+    from props.mandoline_boxes import box_canaries
+    return kernel_canaries(["expand", "coords"]) + parent_canaries() + box_canaries(["slice"])
 
 
 SCENARIO_TIMEOUT = 500
@@ -27,7 +35,7 @@ def scenarios(tier, seed):
              "nfiles": [2, 3][i % 2], "layout": ["shuffled", "roundrobin"][i % 2], "n0": [[16, 16, 16], [16, 8, 24]][i % 2],
              "geo_lo": [[1.0, 2.0, 3.0], [0., 0., 0.]][i % 2], "dx0": [[0.1, 0.2, 0.4], [1., 0.5, 0.25]][i % 2],
              "payload": ["affine", "random"][i % 2], "ncombos": 2 if tier == "quick" else 5,
-             "npos": 9 if tier == "quick" else 30} for i in range(n)]
+             "npos": 13 if tier == "quick" else 30} for i in range(n)]
 
 
 def run_scenario(p, wd):
